@@ -3,13 +3,13 @@ FILE = "asn1tools/codecs/oer.py"
 fields("Encoder", number_of_bits=Nat, value=Nat)
 mutable("Encoder", "number_of_bits", "value")
 invariant("Encoder", self.number_of_bits >= 0, 0 <= self.value, self.value < pow2(self.number_of_bits))
-fixup("Encoder", "self.value = self.value % (1 << self.number_of_bits)")
+fixup("Encoder", "self.number_of_bits %= 4200\nself.value = self.value % (1 << self.number_of_bits)")
 
 fields("Decoder", number_of_bits=Nat, total_number_of_bits=Nat, value=Nat)
 mutable("Decoder", "number_of_bits", "value")
 invariant("Decoder", 0 <= self.number_of_bits, self.number_of_bits <= self.total_number_of_bits,
           0 <= self.value, self.value < pow2(self.total_number_of_bits))
-fixup("Decoder", "self.number_of_bits = min(self.number_of_bits, self.total_number_of_bits)\nself.value = self.value % (1 << self.total_number_of_bits)")
+fixup("Decoder", "self.total_number_of_bits %= 4200\nself.number_of_bits = min(self.number_of_bits, self.total_number_of_bits)\nself.value = self.value % (1 << self.total_number_of_bits)")
 
 fields("asn1tools/codecs/__init__.py", "OutOfDataError", offset=Int)
 
